@@ -143,7 +143,9 @@ Reopen == Step("reopen", Arg(0, "", "", "", <<>>), Ok(0), disk, TRUE, nextId, li
 Convert(to, mode) ==
     LET n    == Len(w.accts)
         pws  == [i \in 1..n |-> IF mode = "wrong" /\ i = n THEN Nx(live[w.accts[i].id]) ELSE live[w.accts[i].id]]
-        good == \A i \in 1..n : Opens(w.accts[i], pws[i], w.params)
+        good == /\ \A i \in 1..n : Opens(w.accts[i], pws[i], w.params)
+                /\ (to = "low" \/ n = 0)     \* named deviation: ToDefaultSecurity hands a nil parameter set to the re-sealing
+                                             \* and panics as soon as there is an account (not a C43 matter; no production caller)
         w2   == [w EXCEPT !.accts = [i \in 1..n |-> [w.accts[i] EXCEPT !.enc = to]], !.params = to]
     IN /\ (mode = "wrong" => n > 0)
        /\ IF good THEN Step("convert", Arg(0, to, mode, "", pws), Ok(0), w2, TRUE, nextId, live)
